@@ -291,6 +291,16 @@ def rule_c(repo, res):
     rets = [r_ for r_ in ast.walk(pfn) if isinstance(r_, ast.Return)]
     ok = permitted is not None and known is not None and member and refuses and len(rets) == 1
     res.check(ok, "C16.c", "extended-transform-flags:from-table", "%s:%s" % (pm.rel, pfn.name), "asym_transform*_flag values must be chosen among the level's permitted values or the encoder must refuse", by="chosen from allowed_values_for(...) or raises")
+    # C16.i: an entry that admits no value means "this field does not occur" (streams below version 3); widening it to
+    # {False} is only harmless while nothing makes the stream version 3, where the flag *is* serialised and the validator
+    # compares it with the empty entry
+    res.rule("C16.i", "an empty extended-transform-flag entry is widened to {False} only under a test that the stream stays below version 3 (where the flag is not serialised); unconditionally widened, a fragmented / version-3 stream carries a False flag that the same table forbids")
+    for w in ast.walk(pfn):
+        if isinstance(w, ast.If) and permitted is not None and any(isinstance(x, ast.Call) and isinstance(x.func, ast.Attribute) and x.func.attr == "add_value" and dotted(x.func.value) == permitted for b in w.body for x in ast.walk(b)):
+            terms = w.test.values if isinstance(w.test, ast.BoolOp) and isinstance(w.test.op, ast.And) else [w.test]
+            empties = [t for t in terms if norm(t) in ("%s == ValueSet()" % permitted, "not %s" % permitted)]
+            others = [t for t in terms if t not in empties]
+            res.check(bool(others), "C16.i", "decide_extended_transform_flag:empty-entry-widened-only-below-version-3", "%s:%s" % (pm.rel, pfn.name), "`%s` widens an entry that admits no value to {False} whatever the stream's version: with fragments (or anything else implying version 3) the False flag is serialised and the validator rejects it under the same table (ValueNotAllowedInLevel, expected {<no values>})" % short(w.test, 60), by="a further conjunct restricts the widening")
 
 
 def rule_g(repo, res):
